@@ -18,7 +18,7 @@ class SchemeFacts:
     def __init__(self, name, handler):
         self.name = name
         self.handler = handler  # the UNCONFIGURED handler: identify / own needs_update only
-        self.has_rounds = "rounds" in getattr(handler, "setting_kwds", ())
+        self.has_rounds = handler is not None and "rounds" in getattr(handler, "setting_kwds", ())
         self.min = getattr(handler, "min_rounds", None) if self.has_rounds else None
         self.max = getattr(handler, "max_rounds", None) if self.has_rounds else None
         self.default = getattr(handler, "default_rounds", None) if self.has_rounds else None
